@@ -1991,6 +1991,102 @@ Proof.
   intro Hf. apply (G h init false false inv_init); [discriminate|discriminate|exact Hf].
 Qed.
 
+(* ---------- ... and nothing is invented: what is on disk was put there by an operation ---------- *)
+Lemma blob_from_op s o d :
+  Inv s -> exists_file (sfs (runop s o)) (FBlob d) = true ->
+  exists_file (sfs s) (FBlob d) = true \/ (exists c m, o = Push d c m /\ H c = d).
+Proof.
+  intros I Hx. destruct (op_safe s o I) as (_ & _ & E & _). rewrite E in Hx.
+  destruct o as [d' c m|d' r|r|d'| |live]; cbn in Hx; try (now left).
+  - destruct (exists_file (sfs s) (FBlob d')) eqn:Ex; [now left|].
+    destruct (H c =? d') eqn:Eh; [|now left].
+    destruct (d =? d') eqn:Ed; [|now left].
+    apply N.eqb_eq in Ed. subst d'. apply N.eqb_eq in Eh. right. now exists c, m.
+  - destruct (d =? d'); [discriminate|now left].
+Qed.
+
+Lemma tag_from_op s o d r :
+  In (r, d) (stags (runop s o)) -> In (r, d) (stags s) \/ o = Tag d r.
+Proof.
+  unfold run_op. destruct o as [d' c m|d' r'|r'|d'| |live]; cbn [op_mem].
+  - destruct (exists_file (sfs s) (FBlob d')); [now left|].
+    destruct (negb (H c =? d')); [now left|]. destruct m; now left.
+  - destruct (exists_file (sfs s) (FBlob d')); cbn [stags]; [|now left].
+    intro Hin. apply tag_set_iff in Hin as [[-> ->]|[_ Hin]]; [now right|now left].
+  - destruct (tag_get r' (stags s)); cbn [stags]; [|now left].
+    intro Hin. unfold tag_del in Hin. apply filter_In in Hin as [Hin _]. now left.
+  - cbn [stags]. intro Hin. apply filter_In in Hin as [Hin _]. now left.
+  - now left.
+  - now left.
+Qed.
+
+Theorem nothing_invented (h : list hop) :
+  let s := runc H shuffle false false true h init in
+  (forall d, exists_file (sfs s) (FBlob d) = true -> pushed_in H d h) /\
+  (forall d r, In (r, d) (stags s) -> tagged_in d r h).
+Proof.
+  (* generalised over the prefix already executed *)
+  assert (G : forall h2 h1 s, Inv s ->
+              (forall d, exists_file (sfs s) (FBlob d) = true -> pushed_in H d h1) ->
+              (forall d r, In (r, d) (stags s) -> tagged_in d r h1) ->
+              let s' := runc H shuffle false false true h2 s in
+              (forall d, exists_file (sfs s') (FBlob d) = true -> pushed_in H d (h1 ++ h2)) /\
+              (forall d r, In (r, d) (stags s') -> tagged_in d r (h1 ++ h2))).
+  { induction h2 as [|x h2 IH]; intros h1 s I PB PT.
+    - cbn. rewrite app_nil_r. now split.
+    - cbn [runc fold_left]. replace (h1 ++ x :: h2) with ((h1 ++ [x]) ++ h2) by (now rewrite <- app_assoc).
+      apply IH; [now apply inv_run_hop| |].
+      + (* blobs *)
+        intros d Hx.
+        assert (Old : exists_file (sfs s) (FBlob d) = true -> pushed_in H d (h1 ++ [x])).
+        { intro Hs. destruct (PB d Hs) as (y & c & m & Hy & E1 & E2). exists y, c, m.
+          split; [apply in_or_app; now left|now split]. }
+        assert (New : forall c m, hop_op x = Push d c m -> H c = d -> pushed_in H d (h1 ++ [x])).
+        { intros c m E1 E2. exists x, c, m. split; [apply in_or_app; right; now left|now split]. }
+        destruct x as [o|o k]; cbn [run_hop] in Hx.
+        * destruct (blob_from_op s o d I Hx) as [Hs|(c & m & -> & Hc)]; [now apply Old|now apply (New c m)].
+        * rewrite sfs_reopen in Hx.
+          destruct (op_safe s o I) as (_ & _ & _ & R). destruct (R k) as (_ & _ & _ & _ & _ & P2).
+          destruct (P2 d) as [H0|H1].
+          { unfold has, exists_file in *. destruct (files _ (FBlob d)); [discriminate|discriminate]. }
+          { apply Old. unfold has, exists_file in *. destruct (files (sfs s) (FBlob d)); [reflexivity|contradiction]. }
+          { assert (E : exists_file (sfs (runop s o)) (FBlob d) = true).
+            { unfold has, exists_file in *. destruct (files (sfs (runop s o)) (FBlob d)); [reflexivity|contradiction]. }
+            destruct (blob_from_op s o d I E) as [Hs|(c & m & -> & Hc)]; [now apply Old|now apply (New c m)]. }
+      + (* tags *)
+        intros d r Hin.
+        assert (Old : In (r, d) (stags s) -> tagged_in d r (h1 ++ [x])).
+        { intro Hs. destruct (PT d r Hs) as (y & Hy & E). exists y. split; [apply in_or_app; now left|exact E]. }
+        assert (New : hop_op x = Tag d r -> tagged_in d r (h1 ++ [x])).
+        { intro E. exists x. split; [apply in_or_app; right; now left|exact E]. }
+        destruct x as [o|o k]; cbn [run_hop] in Hin.
+        * destruct (tag_from_op s o d r Hin) as [Hs| ->]; [now apply Old|now apply New].
+        * (* the resolver reloaded from the index.json found: the one before or the one after *)
+          assert (Ir : Inv (reopen (crash_fs H shuffle false false true s o k) (S (sctr s)))) by (now apply reopen_inv).
+          apply (on_disk_mem _ d r Ir) in Hin. destruct Hin as (l & Hl & Hd). rewrite sfs_reopen in Hl.
+          destruct (op_safe s o I) as (I1 & _ & _ & R). destruct (R k) as (_ & _ & _ & RI & _).
+          rewrite Hl in RI. destruct RI as [RI|RI].
+          { apply Old. apply (on_disk_mem s d r I). exists l. split; [now symmetry|exact Hd]. }
+          { assert (Hm : In (r, d) (stags (runop s o))).
+            { apply (on_disk_mem _ d r I1). exists l. split; [now symmetry|exact Hd]. }
+            destruct (tag_from_op s o d r Hm) as [Hs| ->]; [now apply Old|now apply New]. } }
+  intro s. destruct (G h [] init inv_init) as [A B].
+  - intros d Hx. cbn in Hx. destruct d; discriminate.
+  - intros d r [].
+  - split; [exact A|exact B].
+Qed.
+
+Corollary nothing_invented_disk (h : list hop) :
+  let s := runc H shuffle false false true h init in
+  (forall d, exists_file (sfs s) (FBlob d) = true -> pushed_in H d h) /\
+  (forall l d r, read_index (sfs s) = Some l -> tag_of l r d -> tagged_in d r h).
+Proof.
+  intro s. destruct (nothing_invented h) as [A B]. fold s in A, B. split; [exact A|].
+  intros l d r Hl Ht. apply B.
+  assert (I : Inv s) by (apply inv_runc; apply inv_init).
+  apply (on_disk_mem s d r I). now exists l.
+Qed.
+
 (* ======================================================================= *)
 (* The API layer: calls expanded to primitives (Model expand), histories of completed and
    interrupted CALLS (runa), and "loadIndex succeeds" including decoding of manifests. *)
@@ -2458,4 +2554,13 @@ Theorem init_restartable_many_src :
       files fs' FIndex = Some (mkFile [AIndex []] false) /\
       (forall d, files fs' (FBlob d) = None) /\ dirs fs' DBlobs = true.
 Proof. rewrite src_inplace_false, src_layout_inplace_false. exact init_restartable_many. Qed.
+
+Theorem nothing_invented_src :
+  forall (H : list N -> N) (shuffle : nat -> list entry -> list entry),
+    (forall c l e, In e (shuffle c l) <-> In e l) ->
+    forall (h : list hop),
+      let s := runc H shuffle src_inplace src_unlink_first true h init in
+      (forall d, exists_file (sfs s) (FBlob d) = true -> pushed_in H d h) /\
+      (forall l d r, read_index (sfs s) = Some l -> tag_of l r d -> tagged_in d r h).
+Proof. rewrite src_inplace_false, src_unlink_first_false. exact nothing_invented_disk. Qed.
 
